@@ -12,6 +12,7 @@ Model `Ach.Model.Flatten`: the merge loop of `Flatten` over (header signature, e
 * `flatten_entries_ascending` — every batch of the result holds its entries in ascending trace order (`AddToFile`'s sort),
   strictly ascending when the group's trace numbers are distinct, and the sorted result still holds exactly the
   input's entries; sorting an already sorted group changes nothing;
+* `flatten_sums` — hence every per-entry total (entry/addenda count, debit and credit amounts) is unchanged;
 * `flatten_functions_unchanged` (F) — the functions the model mirrors have the bodies it was written against.
 
 Not modelled: that the signature is the first 87 *bytes* of the rendered header (a multi-byte character shifts the cut —
@@ -43,6 +44,19 @@ theorem flatten_entries_ascending (bs : List FBatch) :
   · intro g hg
     obtain ⟨g0, _, rfl⟩ := List.mem_map.1 hg
     exact sortByTrace_of_sorted _ (sortByTrace_sorted g0.entries)
+
+theorem sum_map_perm {α} (f : α → Int) {a b : List α} (h : a.Perm b) : (a.map f).sum = (b.map f).sum := by
+  induction h with
+  | nil => rfl
+  | cons x _ ih => simp [ih]
+  | swap x y l => simp; omega
+  | trans _ _ ih1 ih2 => exact ih1.trans ih2
+
+/-- **flatten_sums**: every per-entry quantity (count of records, debit amount, credit amount, …) has the same total
+over the flattened file as over the input, whatever the processing order -/
+theorem flatten_sums (bs bs' : List FBatch) (h : bs'.Perm bs) (f : FEntry → Int) :
+    ((allEntries (flattenSorted bs')).map f).sum = ((allEntries bs).map f).sum :=
+  sum_map_perm f ((allEntries_flattenSorted bs').trans (Ach.Flatten.flatten_conserves bs bs' h))
 
 theorem flatten_functions_unchanged : Ach.Gen.hashes_flatten = [("Flatten", 17433447634489127110), ("File.FlattenBatches", 1536511262116566390), ("canMerge", 10022370995848969961), ("mergeableBatcher.GetHeaderSignature", 8692522239459761802), ("mergeableBatcher.GetTraceNumbers", 5489775042599663990), ("mergeableBatcher.Consume", 16867738305919833767), ("mergeableBatcher.Copy", 17960276134899704992), ("mergeableBatcher.AddToFile", 9783587712370690963), ("mergeableIATBatch.GetHeaderSignature", 765302516057565604), ("mergeableIATBatch.Consume", 9696842403323344610), ("mergeableIATBatch.Copy", 1045880233085641850), ("mergeableIATBatch.AddToFile", 4703499552243858790)] := by decide +kernel
 
